@@ -20,6 +20,11 @@ pub async fn run_suite(seed: u64, cases: usize, only: Option<usize>) -> String {
     if only.is_some_and(|o| o != case) {
       continue;
     }
+    if case % 8 == 5 {
+      overflow_case(case, &mut r, &mut fails, &mut t).await;
+      *stats.entry("overflow-cases".into()).or_insert(0) += 1;
+      continue;
+    }
     let nslow = if case == 0 { 2 } else { r.range(1, 3) as usize };
     let flood = if case == 0 { 300 } else { *r.pick(&[50u32, 140, 200, 300]) };
     let pipe = if case == 0 { 64 } else { *r.pick(&[64usize, 256, 4096]) };
@@ -147,6 +152,102 @@ pub async fn run_suite(seed: u64, cases: usize, only: Option<usize>) -> String {
   }
   let _ = writeln!(t, "stats {{\"suite\":\"pressure\",\"seed\":{},\"cases\":{},\"ops\":{},\"oracle_failures\":{}}}", seed, cases, crate::js_map(&stats), fails.len());
   t
+}
+
+/// A member that stops reading behind a small pipe while its outbound queue (size 4) overflows: every broadcast is still
+/// acknowledged to the publisher, every frame still reaches the healthy member in order, and only the stalled member is closed.
+async fn overflow_case(case: usize, r: &mut Rng, fails: &mut Vec<(usize, String)>, t: &mut String) {
+  let mut cfg = SrvCfg::default();
+  cfg.max_connections = 8;
+  cfg.max_inflight = 1000;
+  cfg.queue = *r.pick(&[2u32, 4, 8]);
+  cfg.max_clients = 10;
+  cfg.keep_alive_ms = 3_600_000;
+  cfg.request_timeout_ms = 3_600_000;
+  let mut srv = Srv::new(cfg.clone()).await;
+  let n = 40 + r.below(30) as u32;
+  let _ = writeln!(t, "case {case} overflow queue={} broadcasts={n}", cfg.queue);
+  // fan-out order is the member set's iteration order: two stalled members and two healthy ones make "the members after the
+  // stalled one" non-empty whichever it is
+  let mut stalled = Vec::new();
+  for i in 0..2 {
+    let k = srv.open_cap(64);
+    srv.send(k, format!("CONNECT version=1\nIDENTIFY username=st{i}\nJOIN id=1 channel=!o@localhost\n").as_bytes()).await;
+    // it reads until it has joined, and never again
+    let mut joined = false;
+    for _ in 0..40 {
+      srv.settle(1).await;
+      if drain_one(&mut srv, k).await.iter().any(|f| matches!(f.msg, Message::JoinChannelAck(_))) {
+        joined = true;
+        break;
+      }
+    }
+    if !joined {
+      fails.push((case, format!("C15: [pressure-setup] stalled member {k} could not join")));
+    }
+    stalled.push(k);
+  }
+  let mut healthy = Vec::new();
+  for i in 0..2 {
+    let k = srv.open();
+    srv.send(k, format!("CONNECT version=1\nIDENTIFY username=h{i}\nJOIN id=1 channel=!o@localhost\n").as_bytes()).await;
+    srv.settle(2).await;
+    let _ = drain_one(&mut srv, k).await;
+    healthy.push(k);
+  }
+  let p = srv.open();
+  srv.send(p, b"CONNECT version=1\nIDENTIFY username=pub\nJOIN id=1 channel=!o@localhost\n").await;
+  srv.settle(2).await;
+  let _ = drain_one(&mut srv, p).await;
+  for k in &healthy {
+    let _ = drain_one(&mut srv, *k).await;
+  }
+  let mut seen: BTreeMap<usize, Vec<String>> = BTreeMap::new();
+  for i in 0..n {
+    let body = format!("payload-{i:04}-{}", "x".repeat(180));
+    srv.send(p, format!("BROADCAST id={} channel=!o@localhost length={}\n{body}\n", i + 10, body.len()).as_bytes()).await;
+    srv.settle(1).await;
+    let frames = drain_one(&mut srv, p).await;
+    let acked = frames.iter().any(|f| matches!(&f.msg, Message::BroadcastAck(a) if a.id == i + 10));
+    if !acked {
+      let what: Vec<String> = frames.iter().map(|f| f.text.clone()).collect();
+      fails.push((case, format!(
+        "C15: [overflow-hurts-publisher] broadcast #{i} (queue size {}, two members not reading) was not acknowledged to the publisher; it received {what:?}",
+        cfg.queue
+      )));
+      fails.push((case, format!("C02: [overflow-hurts-publisher] broadcast #{i} was not acknowledged although the publisher did nothing wrong (a stalled member's queue was full)")));
+      break;
+    }
+    for k in &healthy {
+      for f in drain_one(&mut srv, *k).await {
+        if let Message::Message(_) = &f.msg {
+          seen.entry(*k).or_default().push(String::from_utf8_lossy(f.payload.as_deref().unwrap_or(&[])).chars().take(12).collect());
+        }
+      }
+    }
+  }
+  srv.settle(5).await;
+  for k in &healthy {
+    for f in drain_one(&mut srv, *k).await {
+      if let Message::Message(_) = &f.msg {
+        seen.entry(*k).or_default().push(String::from_utf8_lossy(f.payload.as_deref().unwrap_or(&[])).chars().take(12).collect());
+      }
+    }
+  }
+  if !fails.iter().any(|(c, _)| *c == case) {
+    for k in &healthy {
+      let got = seen.get(k).cloned().unwrap_or_default();
+      let want: Vec<String> = (0..n).map(|i| format!("payload-{i:04}")).collect();
+      if got != want {
+        fails.push((case, format!(
+          "C15: [overflow-hurts-others] healthy member (connection {k}) received {} of {n} acknowledged broadcasts while two other members' queues overflowed (first missing: {:?})",
+          got.len(),
+          want.iter().find(|w| !got.contains(w))
+        )));
+        fails.push((case, format!("C02: [missing-delivery] healthy member (connection {k}) received {} of {n} acknowledged broadcasts", got.len())));
+      }
+    }
+  }
 }
 
 async fn drain_one(srv: &mut Srv, k: usize) -> Vec<RFrame> {
